@@ -247,11 +247,33 @@ class Ctx:
         self.log("audit %s: %d theorems, ok=%s" % (module, len(names), ok))
         return ok
 
+    def recheck(self, module, workers=5, timeout=1800):
+        """thorough tier: Lean's independent re-checker (leanchecker) replays the compiled declarations of the module and of
+        every project-local module it imports"""
+        from concurrent.futures import ThreadPoolExecutor
+        mods = module_closure(module)
+        t0 = time.time()
+
+        def one(m):
+            rc, out, dt = _run(["lake", "env", "leanchecker", m], LEAN, timeout)
+            return m, rc, out[-400:]
+        with _Lock():
+            with ThreadPoolExecutor(max_workers=workers) as ex:
+                res = list(ex.map(one, mods))
+        bad = [(m, out) for m, rc, out in res if rc != 0]
+        self.obligation("leanchecker re-checked %d compiled modules (%s ...)" % (len(mods), ", ".join(mods[:3])), not bad,
+                        kind="leanchecker", detail="; ".join("%s: %s" % b for b in bad[:3]))
+        self.log("leanchecker %d modules in %.1fs, failures=%d" % (len(mods), time.time() - t0, len(bad)))
+        return not bad
+
     def prove(self, module, also=()):
         """build + audit; if the build fails, every theorem of the module is an
         undischarged obligation.  `also`: generated modules (imported by `module`) whose theorems are audited too."""
         if self.build(module):
-            return self.audit(module, also)
+            ok = self.audit(module, also)
+            if self.thorough:
+                ok = self.recheck(module) and ok
+            return ok
         for n in theorem_names(module) + [x for m in also for x in theorem_names(m)]:
             self.obligations.append(dict(name=n, ok=False, axioms=None, kind="theorem"))
         return False
